@@ -1004,6 +1004,8 @@ func rootIdent(e ast.Expr) *ast.Ident {
 			e = x.X
 		case *ast.IndexExpr:
 			e = x.X
+		case *ast.SliceExpr:
+			e = x.X
 		default:
 			return nil
 		}
